@@ -114,7 +114,9 @@ class Ctx:
                 if st[0] != '=':
                     continue
                 pl = st[1]
-                if isinstance(place, int):
+                if place is None:
+                    pass
+                elif isinstance(place, int):
                     if pl != place:
                         continue
                 else:
@@ -126,7 +128,7 @@ class Ctx:
             t = b['t']
             if t[0] == 'call':
                 pl = t[3]
-                ok = (pl == place) if isinstance(place, int) else bool(re.search(place, render_place(fn, pl)))
+                ok = True if place is None else (pl == place) if isinstance(place, int) else bool(re.search(place, render_place(fn, pl)))
                 if ok:
                     tt = shorten(fn.term_call(t, 0))
                     if rx.search(tt):
@@ -149,6 +151,24 @@ class Ctx:
             if arx and not arx.search(term):
                 continue
             out.append(Site(fn, bi, None, 'call', term, label=label or shorten(names[-1])))
+        return self._number(out)
+
+    def false_returns(self, fn, label='false'):
+        """sites where a bool function returns false (mirror of true_returns)"""
+        out = []
+        for bi, b in enumerate(fn.blocks):
+            if b['cleanup']:
+                continue
+            for si, st in enumerate(b['s']):
+                if st[0] == '=' and st[1] == 0:
+                    t = shorten(fn.term_rvalue(st[2], 0))
+                    if t == 'true':
+                        continue
+                    out.append(Site(fn, bi, si, 'ret', t, extra=[] if t == 'false' else [core.negate(t)], label=label))
+            t = b['t']
+            if t[0] == 'call' and t[3] == 0:
+                tt = shorten(fn.term_call(t, 0))
+                out.append(Site(fn, bi, None, 'ret', tt, extra=[core.negate(tt)], label=label))
         return self._number(out)
 
     def true_returns(self, fn, label='true'):
@@ -249,6 +269,49 @@ class Ctx:
         for st in start_blocks:
             out |= set(self.reach(fn).run(edge_ok=edge_ok, start=st).keys())
         return out
+
+    # ------------------------------------------------------------ for-all over a collection
+    def forall(self, rule, fn, sites, coll_rx, elem_ok_rx, what):
+        """every element of the collection (regex on the iterated term) satisfies elem_ok_rx at each
+        site. Accepted idioms: (A) a `for` loop whose only way back to the head crosses an elem_ok
+        edge; (B) guard `!iter.any(closure)` where the closure returns false only under elem_ok;
+        (C) guard `iter.all(closure)` where the closure returns true only under elem_ok."""
+        nxt = rf"^ok\(<.* as iter::Iterator>::next\((slice::iter\()?{coll_rx}\)?\)\)$"
+        body = [s for bb in range(len(fn.blocks)) for s, ps in fn.edge_props(bb).items()
+                if any(re.search(nxt, shorten(p)) for p in ps)]
+        for site in sites:
+            ok, how = False, ''
+            if body:
+                rx = re.compile(elem_ok_rx)
+
+                def edge_ok(bb, s, props):
+                    return not any(rx.search(shorten(p)) for p in props)
+                reach_ = set()
+                for st in body:
+                    reach_ |= set(self.reach(fn).run(edge_ok=edge_ok, start=st).keys())
+                exhausted = self.has_guard(site, nxt.replace('^ok', '^!ok'))
+                if site.bb not in reach_ and exhausted:
+                    ok, how = True, 'loop'
+            if not ok:
+                for neg, meth in ((True, 'any'), (False, 'all')):
+                    pat = rf"^{'!' if neg else ''}<.* as iter::Iterator>::{meth}\((slice::iter\()?{coll_rx}\)?,closure:([^)]*)\)$"
+                    # find the closure named on a guarding edge
+                    for bb in range(len(fn.blocks)):
+                        for s_, ps in fn.edge_props(bb).items():
+                            for p in ps:
+                                m = re.search(pat, shorten(p))
+                                if not m or not self.has_guard(site, '^' + re.escape(shorten(p)) + '$'):
+                                    continue
+                                cl = [g for g in self.prog.fns.values() if shorten(g.path) == m.group(m.lastindex) or g.path.endswith(m.group(m.lastindex))]
+                                for g in cl:
+                                    rets = self.false_returns(g) if neg else self.true_returns(g)
+                                    if rets and all(self.has_guard(r, elem_ok_rx.replace('@Some\\.0', '').replace('ELEM', 'arg2')) for r in rets):
+                                        ok, how = True, meth
+            self.oblige(rule, ok, sample={'fn': shorten(fn.path), 'site': site.key(), 'forall': what, 'idiom': how, 'holds': ok},
+                        nontrivial_key=(rule, fn.path, site.key(), 'forall:' + what))
+            if not ok:
+                self.violation(rule, fn.path, site.key(), 'forall:' + what,
+                               f'no accepted idiom (loop / !any / all) establishes /{elem_ok_rx}/ for every element of /{coll_rx}/', site.loc)
 
     # ------------------------------------------------------------ generic check
     def check(self, rule, ok, fn_path, site_key, what, detail='', loc='', sample=None):
